@@ -52,6 +52,13 @@ def gen(ctx):
         inf = IO.analyse(s)
         if s == [["array", "f32", 3]]:          # a payload of more than a megabyte, odd cell width
             cases.append((si, IO.fmt_dat(IO.gen_dat(inf, rnd, "mixed", maxcells=400000, ext_pool=[90001]))))
+        # payloads of exactly 2^20 / 2^22 bytes: a block-wise writer or reader must get the last (full) block right
+        if s == [["array", "f64", 1]]:
+            cases.append((si, IO.fmt_dat(IO.gen_dat(inf, rnd, "mixed", maxcells=200000, ext_pool=[131072]))))
+        if s == [["array", "f32", 1]]:
+            cases.append((si, IO.fmt_dat(IO.gen_dat(inf, rnd, "mixed", maxcells=1100000, ext_pool=[1048576]))))
+        if s == [["array", "f32", 4]] and not ctx.quick:
+            cases.append((si, IO.fmt_dat(IO.gen_dat(inf, rnd, "mixed", maxcells=600000, ext_pool=[524288]))))
         if s == [["strided", "u16", 2], ["array", "f32", 1]]:      # exactly 2^16 cells under 16-bit coordinates
             cases.append((si, IO.fmt_dat(IO.gen_dat(inf, rnd, "mixed", maxcells=70000, ext_pool=[256]))))
     return stacks, cases
